@@ -13,8 +13,6 @@
 (***************************************************************************)
 EXTENDS Message, SignType, Page
 
-NoReply == Msg("None", 0, "", 0, <<>>)
-
 NewSign(addr, flip) ==
     [addr |-> addr, flip |-> flip, st |-> "Unconfigured", pages |-> <<>>, pending |-> <<>>,
      chunks |-> 0, w |-> 0, h |-> 0, typ |-> "None"]
